@@ -201,14 +201,26 @@ func runMaintPassCase(seed uint64, k, idx int) {
 			perBucket[sharedPrefix(root, n.id)]++
 		}
 		for tries := 0; tries < 2; tries++ {
+			// preferably in a bucket this pass visits
+			var cands []*mpNode
+			for _, n := range nodes {
+				if b := sharedPrefix(root, n.id); n.class == 'g' && !n.twin && perBucket[b] < 8 && b <= depth && !hasTwin(nodes, n) {
+					cands = append(cands, n)
+				}
+			}
 			y := nodes[r.intn(len(nodes))]
+			if len(cands) > 0 {
+				y = cands[r.intn(len(cands))]
+			}
 			b := sharedPrefix(root, y.id)
-			if y.class != 'g' || y.twin || perBucket[b] >= 8 {
+			if y.class != 'g' || y.twin || perBucket[b] >= 8 || hasTwin(nodes, y) {
 				continue
 			}
 			perBucket[b]++
-			y.answers, y.fanswers = false, false
-			nodes = append(nodes, &mpNode{speer: speer{addr: y.addr, id: idInBucket(r, root, b)}, class: 'n', twin: true})
+			// the host is silent during the pass, or it answers pings - under its NEW id: the ping of the stale entry
+			// "succeeds" (no failed flag) without the stale entry having answered (it stays questionable)
+			y.answers, y.fanswers = r.bool(), false
+			nodes = append(nodes, &mpNode{speer: speer{addr: y.addr, id: idInBucket(r, root, b)}, class: 'n', twin: true, answers: y.answers})
 		}
 	}
 	// every other case: up to 7 contacts (fewer than K, so that no traversal's result set fills and every seed is asked)
@@ -330,14 +342,17 @@ func runMaintPassCase(seed uint64, k, idx int) {
 	}
 	snap0, _ := s.VerifTableSnapshot()
 	slotOf := map[string]int{}
-	var ntoks, atoks, ftoks []string
+	var ntoks, atoks, otoks, ftoks []string
 	for _, v := range snap0 {
 		slotOf[mpAddrTok(udp(v.IP, v.Port))] = v.Bucket
 		ntoks = append(ntoks, fmt.Sprintf("%d/%s/%s/%d/%d/%d/%d/%s", v.Bucket, hx(v.Id[:]), hx(v.IP), v.Port, v.QueryAgeNs, v.ResponseAgeNs, b2i(v.Failed), clsOf(v)))
 	}
 	for _, n := range nodes {
-		if n.answers {
+		if n.answers && !n.twin {
 			atoks = append(atoks, fmt.Sprintf("%s/%s/%d", hx(n.id[:]), hx(n.addr.IP), n.addr.Port))
+		}
+		if n.answers && n.twin {
+			otoks = append(otoks, fmt.Sprintf("%s/%s/%d", hx(n.id[:]), hx(n.addr.IP), n.addr.Port))
 		}
 		if n.fanswers {
 			ftoks = append(ftoks, fmt.Sprintf("%s/%s/%d", hx(n.id[:]), hx(n.addr.IP), n.addr.Port))
@@ -481,11 +496,47 @@ func runMaintPassCase(seed uint64, k, idx int) {
 			oracle("C06", "entry-that-is-not-questionable-pinged-by-table-maintenance", "case=%d pass k=%d to=%s", idx, k, w.to)
 		}
 	}
+	// C09, stated on the wire: a stale entry whose host only ever answered under ANOTHER id has not answered any of the
+	// node's queries; whatever the maintainer did, a find_node for that very id must not list it
+	if ended {
+		for ti, n := range nodes {
+			if !n.twin {
+				continue
+			}
+			probe := udp([]byte{203, 0, 113, byte(20 + ti%200)}, 30000+idx)
+			t := fmt.Sprintf("c9%d", ti)
+			pm := bencode.MustMarshal(krpc.Msg{Q: "find_node", Y: "q", T: t, A: &krpc.MsgArgs{ID: krpc.ID{7, byte(ti)}, Target: n.id, Want: []krpc.Want{"n4", "n6"}}})
+			conn.takeWrites()
+			if !conn.inject(pm, probe, 3*time.Second) {
+				continue
+			}
+			var rep *krpc.Msg
+			for dl := time.Now().Add(3 * time.Second); rep == nil && time.Now().Before(dl); {
+				for _, w := range conn.takeWrites() {
+					if mm, ok := decodeLikeServer(w.data); ok && mm.Y == "r" && mm.T == t && w.addr.String() == probe.String() {
+						rep = mm
+					}
+				}
+				time.Sleep(time.Millisecond)
+			}
+			if rep == nil || rep.R == nil {
+				continue
+			}
+			for _, ni := range append(append([]krpc.NodeInfo(nil), rep.R.Nodes...), rep.R.Nodes6...) {
+				if ni.ID == n.id && ni.Addr.Port == n.addr.Port && ni.Addr.IP.Equal(n.addr.IP) {
+					oracle("C09", "listed-contact-never-answered-under-that-id:after-maintenance", "case=%d pass k=%d entry=%s@%s (host answers pings under another id: %v)", idx, k, hx(n.id[:]), n.addr, n.answers)
+				}
+			}
+		}
+	}
 	afterTok := "-"
 	if len(after) > 0 {
 		afterTok = strings.Join(after, ";")
 	}
-	nt, at, ft := "-", "-", "-"
+	nt, at, ft, ot := "-", "-", "-", "-"
+	if len(otoks) > 0 {
+		ot = strings.Join(otoks, ",")
+	}
 	if len(ftoks) > 0 {
 		ft = strings.Join(ftoks, ",")
 	}
@@ -496,7 +547,7 @@ func runMaintPassCase(seed uint64, k, idx int) {
 		at = strings.Join(atoks, ",")
 	}
 	if ended {
-		emit("mpass %d root=%s nosec=1 booted=%d nodes=%s answers=%s fanswers=%s => boot:%s %s after:%s", idx, hx(root[:]), b2i(booted), nt, at, ft, mpSetTok(boot), strings.Join(toks, " "), afterTok)
+		emit("mpass %d root=%s nosec=1 booted=%d nodes=%s answers=%s oanswers=%s fanswers=%s => boot:%s %s after:%s", idx, hx(root[:]), b2i(booted), nt, at, ot, ft, mpSetTok(boot), strings.Join(toks, " "), afterTok)
 	}
 	emit("# mpass %d depth=%d nodes=%d datagrams=%d ended=%v", idx, depth, len(nodes), len(log2), ended)
 	s.Close()
